@@ -42,7 +42,7 @@ def main():
         rc, out = sh('git apply %s' % demo_diff)
         assert rc == 0, out
     rc1, out1 = sh(a.demo + ' 2>&1 | tail -60')
-    demo_fails_with = bool(failed_tests(out1)) or 'panicked' in out1 or rc1 != 0 and 'test result: FAILED' in out1
+    demo_fails_with = ('test result: FAILED' in out1 or bool(failed_tests(out1))) and 'could not compile' not in out1
     log['demo_with_patch'] = out1[-1500:]
     rc, out = sh('git apply -R %s/patch.diff' % a.src)
     assert rc == 0, out
